@@ -78,11 +78,15 @@ type probe struct {
 	saddr     int
 	lds       bool
 	execDep   bool // scalar: definition reads EXEC
+	real      bool // memory goes through the real emu storage accessor (realacc.go)
 }
 
 func (p *probe) opKey() string { return fmt.Sprintf("%s|%s|%d", p.Arch, p.Format, p.Opcode) }
 
 func (p *probe) key(rel string) string {
+	if p.real {
+		rel = "real-accessor|" + rel
+	}
 	return fmt.Sprintf("C06|%s|%s|%d|%s|%s", p.Arch, p.Format, p.Opcode, p.Name, rel)
 }
 
